@@ -194,7 +194,9 @@ theorem isAlign_stepOp (b : Bag) (op : Op) : (stepOp b op).1.isAlign = b.isAlign
     · rfl
     · split
       · rfl
-      · rename_i r hr
-        exact (compressBag_fields hr).2.2.2.1
+      · split
+        · rfl
+        · rename_i r hr
+          exact (compressBag_fields hr).2.2.2.1
 
 end Gv.Proofs.BagAbs
